@@ -356,6 +356,81 @@ for (tag, d, fl, B, LANES, EFN) in (("s128a", "CT_SIMD_S128A", ["-msse2"], 16, 4
           bounded="call size %d, buffer offset %d (representative pair); vector block function body removed" % (n, off))
 
 
+# ------------------------------------------------------------------ C19: the Arduino port (extracted to C on every run)
+HA = "h_ard_skinny128.c"
+_A128 = (("Skinny128_128", 16, 0), ("Skinny128_256", 32, 0), ("Skinny128_384", 48, 0),
+         ("Skinny128_256_Tweaked", 16, 1), ("Skinny128_384_Tweaked", 32, 1))
+for (leaf, klen, tw) in _A128:
+    a = "a128.%s." % leaf.replace("Skinny128_", "")
+    D = ['VERIF_ARD_TU="arduino/%s.c"' % leaf, "VERIF_ARD_LEAF=%s" % leaf, "VERIF_ARD_KEYLEN=%d" % klen] + (["VERIF_ARD_TWEAKED=1"] if tw else [])
+    RA = "ard128"
+    J(a + "ctor", ["C19"], HA, "h_ctor", defs=D, loops=False, must_have=["C19 constructor"], replay=RA,
+      note="constructor chain evaluated by the extractor: s == sched, r == rounds of the library variant, schedule size")
+    J(a + "encryptBlock", ["C19"], HA, "h_encryptBlock", enforce="Skinny128__encryptBlock", defs=D, must_have=LC + PC, replay=RA)
+    J(a + "decryptBlock", ["C19"], HA, "h_decryptBlock", enforce="Skinny128__decryptBlock", defs=D, must_have=LC + PC, replay=RA)
+    J(a + "setTK1", ["C19"], HA, "h_setTK1", enforce="Skinny128__setTK1", defs=D, must_have=LC + PC, replay=RA, timeout=1800)
+    if klen + 16 * tw > 16:
+        J(a + "setTK2", ["C19"], HA, "h_setTK2", enforce="Skinny128__setTK2", defs=D, must_have=LC + PC, replay=RA)
+    if klen + 16 * tw > 32:
+        J(a + "setTK3", ["C19"], HA, "h_setTK3", enforce="Skinny128__setTK3", defs=D, must_have=LC + PC, replay=RA)
+    J(a + "clear", ["C19"], HA, "h_clear", enforce="Skinny128__clear", defs=D, must_have=PC, replay=RA,
+      note="clean() of Crypto.cpp inlined with its loop contract; every schedule byte zero (witness byte)")
+    TKA = ["Skinny128__setTK1", "Skinny128__setTK2", "Skinny128__setTK3"]
+    J(a + "setKey", ["C19"], HA, "h_setKey", enforce=leaf + "__setKey", defs=D, loops=False,
+      replace=TKA + (["Skinny128_Tweaked__resetTweak"] if tw else []), must_have=PC, replay=RA,
+      note="key length check (symbolic length), round count and schedule word pair J of the corresponding library variant")
+    if tw:
+        J(a + "xorTK1", ["C19"], HA, "h_xorTK1", enforce="Skinny128__xorTK1", defs=D, must_have=LC + PC, replay=RA)
+        J(a + "resetTweak", ["C19"], HA, "h_resetTweak", enforce="Skinny128_Tweaked__resetTweak", defs=D, loops=False,
+          replace=["Skinny128__setTK1"], must_have=PC, replay=RA)
+        J(a + "setTweak", ["C19"], HA, "h_setTweak", enforce="Skinny128_Tweaked__setTweak", defs=D, loops=False,
+          replace=["Skinny128__xorTK1"], must_have=PC, replay=RA,
+          note="history independence (key part of the schedule unchanged for every previous tweak); null tweak = all-zero")
+        J(a + "tclear", ["C19"], HA, "h_tclear", enforce="Skinny128_Tweaked__clear", defs=D,
+          replace=["Skinny128__clear"], must_have=PC, replay=RA)
+
+
+HA64 = "h_ard_skinny64.c"
+_A64 = (("Skinny64_64", 8, 0), ("Skinny64_128", 16, 0), ("Skinny64_192", 24, 0),
+         ("Skinny64_128_Tweaked", 8, 1), ("Skinny64_192_Tweaked", 16, 1))
+for (leaf, klen, tw) in _A64:
+    a = "a64.%s." % leaf.replace("Skinny64_", "")
+    D = ['VERIF_ARD_TU="arduino/%s.c"' % leaf, "VERIF_ARD_LEAF=%s" % leaf, "VERIF_ARD_KEYLEN=%d" % klen] + (["VERIF_ARD_TWEAKED=1"] if tw else [])
+    RA = "ard64"
+    J(a + "ctor", ["C19"], HA64, "h_ctor", defs=D, loops=False, must_have=["C19 constructor"], replay=RA,
+      note="constructor chain evaluated by the extractor: s == sched, r == rounds of the library variant, schedule size")
+    J(a + "encryptBlock", ["C19"], HA64, "h_encryptBlock", enforce="Skinny64__encryptBlock", defs=D, must_have=LC + PC, replay=RA)
+    J(a + "decryptBlock", ["C19"], HA64, "h_decryptBlock", enforce="Skinny64__decryptBlock", defs=D, must_have=LC + PC, replay=RA)
+    J(a + "setTK1", ["C19"], HA64, "h_setTK1", enforce="Skinny64__setTK1", defs=D, must_have=LC + PC, replay=RA, timeout=1800)
+    if klen + 8 * tw > 8:
+        J(a + "setTK2", ["C19"], HA64, "h_setTK2", enforce="Skinny64__setTK2", defs=D, must_have=LC + PC, replay=RA)
+    if klen + 8 * tw > 16:
+        J(a + "setTK3", ["C19"], HA64, "h_setTK3", enforce="Skinny64__setTK3", defs=D, must_have=LC + PC, replay=RA)
+    J(a + "clear", ["C19"], HA64, "h_clear", enforce="Skinny64__clear", defs=D, must_have=PC, replay=RA,
+      note="clean() of Crypto.cpp inlined with its loop contract; every schedule byte zero (witness byte)")
+    TKA = ["Skinny64__setTK1", "Skinny64__setTK2", "Skinny64__setTK3"]
+    J(a + "setKey", ["C19"], HA64, "h_setKey", enforce=leaf + "__setKey", defs=D, loops=False,
+      replace=TKA + (["Skinny64_Tweaked__resetTweak"] if tw else []), must_have=PC, replay=RA,
+      note="key length check (symbolic length), round count and schedule word pair J of the corresponding library variant")
+    if tw:
+        J(a + "xorTK1", ["C19"], HA64, "h_xorTK1", enforce="Skinny64__xorTK1", defs=D, must_have=LC + PC, replay=RA)
+        J(a + "resetTweak", ["C19"], HA64, "h_resetTweak", enforce="Skinny64_Tweaked__resetTweak", defs=D, loops=False,
+          replace=["Skinny64__setTK1"], must_have=PC, replay=RA)
+        J(a + "setTweak", ["C19"], HA64, "h_setTweak", enforce="Skinny64_Tweaked__setTweak", defs=D, loops=False,
+          replace=["Skinny64__xorTK1"], must_have=PC, replay=RA,
+          note="history independence (key part of the schedule unchanged for every previous tweak); null tweak = all-zero")
+        J(a + "tclear", ["C19"], HA64, "h_tclear", enforce="Skinny64_Tweaked__clear", defs=D,
+          replace=["Skinny64__clear"], must_have=PC, replay=RA)
+
+
+# The extraction flattens the C++ object into separate file-scope objects, so CBMC's object-bounds check on pointer
+# ARITHMETIC (not on dereferences, which stay checked) is not meaningful there: Skinny128::decryptBlock leaves its
+# loop with `schedule -= 2` pointing two words before sched[], which in the real object is still inside the object.
+for _j in JOBS:
+    if _j.id.startswith(("a128.", "a64.", "am.", "actr.")):
+        _j.drop_checks = ["--pointer-overflow-check"]
+
+
 # ------------------------------------------------------------------ loop handling policy
 # Jobs whose enforced function (with its inlined callees) carries NO loop contract are run WITHOUT
 # --apply-loop-contracts and with --unwind 70 --unwinding-assertions instead: dfcc reports "local X is not
@@ -365,7 +440,7 @@ for (tag, d, fl, B, LANES, EFN) in (("s128a", "CT_SIMD_S128A", ["-msse2"], 16, 4
 # reports as UNDECIDED, never as a violation.
 import re as _re
 _LOOPY = _re.compile(r"(ecb_encrypt|ecb_decrypt|set_tk[123]$|xor_tk1$|\.def_encrypt$|^v\w+\.encrypt$|^p\w+\.(encrypt|decrypt|crypt)$|"
-                     r"^i\.(cleanse|xor)$|ecb_crypt|overlap_|^ex\.\w+_main$|^ex\.parse_options$|\.eblock$|^pv\w+\.|^lemma\.)")
+                     r"^a\w+\.\w+\.(encryptBlock|decryptBlock|setTK[123]|xorTK1|clear|tclear|clean)$|^i\.(cleanse|xor)$|ecb_crypt|overlap_|^ex\.\w+_main$|^ex\.parse_options$|\.eblock$|^pv\w+\.|^lemma\.)")
 for _j in JOBS:
     if _j.loops and not _LOOPY.search(_j.id):
         _j.loops = False
